@@ -288,10 +288,7 @@ func (c *AbstractVariantOperations) Pow(
 
 	// Performs operation.
 	switch value1.Type() {
-	case Integer:
-	case Long:
-	case Float:
-	case Double:
+	case Integer, Long, Float, Double:
 		// Converts second operant to the type of the first operand.
 		var err error
 		value1, err = c.Overrides.Convert(value1, Double)
